@@ -69,7 +69,7 @@ def main():
         entry = {"subject": subj, "tier": tier, "checks": {}}
         for p in props:
             t0 = time.time()
-            r = sh(f"PSIM_REPO={wt} /verif/check {p} --tier {tier}", cwd="/verif")
+            r = sh(f"PSIM_SUT_TAG=rv-{commit} PSIM_REPO={wt} /verif/check {p} --tier {tier}", cwd="/verif")
             dt = time.time() - t0
             viol = re.findall(r"^VIOLATION property=(\S+) replay=(\S+)", r.stdout, re.M)
             kinds = re.findall(r"^violation kind=(\S+)", r.stdout, re.M)
@@ -95,9 +95,8 @@ def main():
         json.dump(table, open(out_path, "w"), indent=1, sort_keys=True)
         # remove the scratch worktree and the build output of that tree
         sh(f"git -C /repo worktree remove --force {wt}")
-        for d in os.listdir("/verif/target"):
-            if d.startswith("sut-"):
-                shutil.rmtree(os.path.join("/verif/target", d), ignore_errors=True)
+        for d in (f"sut-rv-{commit}", f"sut-rv-{commit}bin"):
+            shutil.rmtree(os.path.join("/verif/target", d), ignore_errors=True)
     print("done")
 
 
